@@ -101,6 +101,14 @@ def first_occurrence_idents(text):
     toks = [t for t in rsparse.tokenize(text) if t.kind != 'com']
     seen = []
     have = set()
+    stack = []
+    inner = []      # innermost open bracket at each token
+    for t in toks:
+        inner.append(stack[-1] if stack else '')
+        if t.kind == 'p' and t.text in '([{':
+            stack.append(t.text)
+        elif t.kind == 'p' and t.text in ')]}' and stack:
+            stack.pop()
     for i, t in enumerate(toks):
         if t.kind != 'id' or t.text in RUST_KW or not (t.text[0].islower() or t.text[0] == '_'):
             continue
@@ -111,6 +119,8 @@ def first_occurrence_idents(text):
             continue
         if prev == "'":
             continue
+        if nxt == ':' and nxt2 != ':' and inner[i] == '{' and prev in ('{', ','):
+            continue    # `field: value` in a struct literal or pattern names a field, not a local
         if t.text not in have:
             have.add(t.text)
             seen.append(t.text)
@@ -119,9 +129,37 @@ def first_occurrence_idents(text):
 
 def rename_contract(c, ren):
     import copy
-    # only free-standing uses: not a field/method name (after `.`), not a path segment, not in call or macro position
-    pat = re.compile(r'(?<![\w.])(?<!::)(%s)\b(?!\s*(?:\(|::|!(?!=)))' % '|'.join(re.escape(k) for k in ren))
-    f = lambda s: pat.sub(lambda m: ren[m.group(1)], s)
+    def f(line):
+        """rename free-standing uses (not a field/method name after `.`, not a path segment, not in call or macro position);
+        a struct-literal/pattern field given in shorthand (`Variant { start }`) becomes `start: new_name`"""
+        toks = rsparse.tokenize(line)
+        if not any(t.kind == 'id' and t.text in ren for t in toks):
+            return line
+        out = []
+        pos = 0
+        stack = []   # (bracket, text of the token before it)
+        for i, t in enumerate(toks):
+            prev = toks[i - 1].text if i > 0 else ''
+            prev2 = toks[i - 2].text if i > 1 else ''
+            nxt = toks[i + 1].text if i + 1 < len(toks) else ''
+            nxt2 = toks[i + 2].text if i + 2 < len(toks) else ''
+            if t.kind == 'p' and t.text in '([{':
+                stack.append((t.text, prev))
+            elif t.kind == 'p' and t.text in ')]}' and stack:
+                stack.pop()
+            if t.kind == 'id' and t.text in ren and t.kind != 'com':
+                skip = prev == '.' or (prev == ':' and prev2 == ':') or (nxt == ':' and nxt2 == ':') or nxt == '(' or (nxt == '!' and nxt2 != '=')
+                in_struct = bool(stack) and stack[-1][0] == '{' and stack[-1][1][:1].isupper()
+                if not skip and in_struct and nxt == ':' and nxt2 != ':' and prev in ('{', ','):
+                    skip = True    # an explicit field name
+                if not skip:
+                    new = ren[t.text]
+                    if in_struct and prev in ('{', ',') and nxt in ('}', ','):
+                        new = '%s: %s' % (t.text, new)
+                    out.append(line[pos:t.start] + new)
+                    pos = t.end
+        out.append(line[pos:])
+        return ''.join(out)
     c2 = copy.deepcopy(c)
     c2.clauses = [(sec, [f(l) for l in lines]) for sec, lines in c2.clauses]
     for lc in c2.loops:
@@ -336,21 +374,19 @@ class Unit:
         fresh = [b for b in new if b not in olds]    # names new to the function, in order of first occurrence
         if not gone or len(gone) > len(fresh):
             return {}
-        if len(gone) == len(fresh):
-            return dict(zip(gone, fresh))
-        # more fresh names than vanished ones (the edit also introduced temporaries): pair each vanished name with the fresh
-        # name at the nearest relative position, keeping the order
+        # align the two sequences; a vanished name is paired with the fresh name that replaced it at the same place
+        import difflib
         ren = {}
-        j = 0
-        for a in gone:
-            pa = old.index(a) / max(1, len(old))
-            best = None
-            for k in range(j, len(fresh) - (len(gone) - len(ren) - 1)):
-                d = abs(new.index(fresh[k]) / max(1, len(new)) - pa)
-                if best is None or d < best[0]:
-                    best = (d, k)
-            ren[a] = fresh[best[1]]
-            j = best[1] + 1
+        sm = difflib.SequenceMatcher(None, old, new, autojunk=False)
+        for tag, i1, i2, j1, j2 in sm.get_opcodes():
+            if tag != 'replace':
+                continue
+            g = [a for a in old[i1:i2] if a in gone]
+            f = [b for b in new[j1:j2] if b in fresh]
+            for a, b in zip(g, f):
+                ren[a] = b
+        if set(ren) != set(gone):
+            return {}
         return ren
 
     # ---------------------------------------------------------------- contract splice
